@@ -29,6 +29,27 @@ theorem normalize_power_power (a : Arr ℂ) (p : ℝ) (hp : 0 ≤ p) (ha : 0 < a
   rw [← arrSum_eq, ← hS]
   field_simp
 
+/-- **normalize_power does not depend on the scale of its input** (no tolerance, no "already normalised" shortcut): multiplying
+the amplitude by any `c > 0` — nano-scale or giga-scale units alike — gives exactly the same normalised array, for every
+target power. Together with `normalize_power_power` (power exactly `p` for every non-zero input power, however close to `p` it
+already is) this is what a tolerance-guarded early return violates. -/
+theorem normalize_power_scale_invariant (a : Arr ℂ) (p c : ℝ) (hc : 0 < c) (i j : ℤ) :
+    (normalizePower { a with get := fun i j => (c : ℂ) * a.get i j } p).get i j = (normalizePower a p).get i j := by
+  have hS : arrSum (intensity (R := ℝ) ({ a with get := fun i j => (c : ℂ) * a.get i j } : Arr ℂ))
+      = c * c * arrSum (intensity (R := ℝ) a) := by
+    rw [arrSum_eq, arrSum_eq]
+    simp only [intensity, NormSqLike.normSq, Complex.normSq_mul, Complex.normSq_ofReal, mul_sum]
+  show (c : ℂ) * a.get i j * ((Real.sqrt (p / arrSum (intensity (R := ℝ)
+      ({ a with get := fun i j => (c : ℂ) * a.get i j } : Arr ℂ))) : ℝ) : ℂ)
+    = a.get i j * ((Real.sqrt (p / arrSum (intensity (R := ℝ) a)) : ℝ) : ℂ)
+  rw [hS]
+  have e : p / (c * c * arrSum (intensity (R := ℝ) a)) = (p / arrSum (intensity (R := ℝ) a)) / (c * c) := by
+    rw [div_div, mul_comm]
+  rw [e, Real.sqrt_div' _ (mul_self_nonneg c), Real.sqrt_mul_self hc.le]
+  push_cast
+  have hc' : (c : ℂ) ≠ 0 := by exact_mod_cast hc.ne'
+  field_simp
+
 example : ∃ a : Arr ℂ, 0 < arrSum (intensity (R := ℝ) a) :=
   ⟨⟨1, 1, fun _ _ => 1⟩, by simp [arrSum, intensity, sumRange, NormSqLike.normSq]⟩
 
